@@ -490,7 +490,11 @@ func getListenAddress(addr Address, listenAddr string) (string, error) {
 	// of 'addr'.
 	splitted := strings.Split(listenAddr, ":")
 	if len(splitted) == 1 && port != "" {
-		return splitted[0] + ":" + port, nil
+		listen := splitted[0] + ":" + port
+		if _, _, err := net.SplitHostPort(listen); err != nil {
+			return "", xerrors.Errorf("invalid listen address: %v", err)
+		}
+		return listen, nil
 	}
 
 	// If host and port in `listenAddr`, choose this one.
